@@ -195,6 +195,10 @@ def check_case(case, acc, base=None):
 
 
 CLOSURE_SYMBOLS = ['0', '1', '2', '3', '-', '+', ' ', 'A', 0xff]
+# second alphabet: the digits of BOTH codec families as raw bytes (0x30.. are digits in ASCII-family codecs and control
+# characters in EBCDIC, 0xf0.. the other way round): a numeral must be read in the codec of the message, whatever its
+# bytes would mean elsewhere
+CLOSURE_SYMBOLS_X = [0x30, 0x31, 0x32, 0x33, 0xf0, 0xf1, 0xf2, 0xf3, 'A']
 
 
 def closure_pairs(cfgname, limit):
@@ -222,12 +226,13 @@ def check_closure_case(case, acc, cfg=None):
     for bit in case['bits']:
         bm[(bit - 1) // 8] |= 0x80 >> ((bit - 1) % 8)
     head = '1240'.encode(enc) + (bytes(bm).hex().encode('ascii') if hx else bytes(bm))
-    tail = b''.join(c07.symbol_bytes(CLOSURE_SYMBOLS[i], enc) for i in case['s'])
+    symbols = CLOSURE_SYMBOLS_X if case.get('alphabet') == 'x' else CLOSURE_SYMBOLS
+    tail = b''.join(c07.symbol_bytes(symbols[i], enc) for i in case['s'])
     bad = head + tail
     status, val = faults.guarded(lambda: iso8583.loads(bad, encoding=enc, iso_config=cfg, hex_bitmap=hx), 3.0)
     verdict, ref = iso_ref.strict_decode(bad, cfg, enc, hx)
     lib = 'accept' if status == 'ok' else 'reject' if (status == 'exc' and isinstance(val, CardutilError)) else 'crash'
-    acc.case(('closure', case['cfg'], enc, hx, tuple(case['bits']), tuple(case['s'])), nontrivial=True,
+    acc.case(('closure', case['cfg'], enc, hx, tuple(case['bits']), tuple(case['s']), case.get('alphabet')), nontrivial=True,
              outcome='lib:%s ref:%s' % (lib, verdict))
     if lib == 'crash':
         return
@@ -253,6 +258,8 @@ def run_closure_task(task, acc):
             for tup in itertools.product(range(len(CLOSURE_SYMBOLS)), repeat=n):
                 case = {'kind': 'closure', 'cfg': task['cfg'], 'enc': task['enc'], 'hex': task['hex'], 'bits': bits,
                         's': list(tup)}
+                if task.get('alphabet'):
+                    case['alphabet'] = task['alphabet']
                 if first and n == 3:
                     acc.sample(case)
                     first = False
@@ -365,6 +372,10 @@ def tasks(tier, seed):
         prs = closure_pairs(cfgname, 20 if tier == 'quick' else 60)
         for ch in core.spread(prs, 8 if tier == 'quick' else 32):
             ts.append({'closure': True, 'cfg': cfgname, 'enc': enc, 'hex': hx, 'pairs': ch, 'k': k})
+    for cfgname, enc, hx in (('PKG', 'cp500', False), ('PKG', 'latin_1', False), ('CUSTOM', 'cp037', False)):
+        prs = closure_pairs(cfgname, 12 if tier == 'quick' else 40)
+        for ch in core.spread(prs, 8 if tier == 'quick' else 16):
+            ts.append({'closure': True, 'cfg': cfgname, 'enc': enc, 'hex': hx, 'pairs': ch, 'k': 4, 'alphabet': 'x'})
     for ch in core.chunks(sequence_cases(), 8):
         ts.append({'sequences': ch})
     return ts
